@@ -39,6 +39,8 @@ pub struct Invocation {
     pub via_file: bool,
     /// the first pattern goes into the -f file, the others into -p (both options on one command line)
     pub split: bool,
+    /// use --line-number / --no-filename instead of -n / -h
+    pub long_flags: bool,
     pub line_number: bool,
     pub no_filename: bool,
     pub color: bool,
@@ -52,7 +54,7 @@ impl Invocation {
         json!({
             "profile": self.profile,
             "patterns": self.patterns.iter().map(|p| hex(p)).collect::<Vec<_>>(),
-            "via_file": self.via_file, "split": self.split, "line_number": self.line_number, "no_filename": self.no_filename,
+            "via_file": self.via_file, "split": self.split, "long_flags": self.long_flags, "line_number": self.line_number, "no_filename": self.no_filename,
             "color": self.color, "delivery": self.delivery.name(),
             "input": hex(&self.input), "input2": hex(&self.input2),
         })
@@ -63,6 +65,7 @@ impl Invocation {
             patterns: v["patterns"].as_array().unwrap().iter().map(|p| util::unhex(p.as_str().unwrap())).collect(),
             via_file: v["via_file"].as_bool().unwrap_or(false),
             split: v["split"].as_bool().unwrap_or(false),
+            long_flags: v["long_flags"].as_bool().unwrap_or(false),
             line_number: v["line_number"].as_bool().unwrap_or(false),
             no_filename: v["no_filename"].as_bool().unwrap_or(false),
             color: v["color"].as_bool().unwrap_or(false),
@@ -119,10 +122,10 @@ pub fn run(inv: &Invocation) -> RunResult {
         cmd.arg("-p").arg(String::from_utf8(joined).unwrap());
     }
     if inv.line_number {
-        cmd.arg("-n");
+        cmd.arg(if inv.long_flags { "--line-number" } else { "-n" });
     }
     if inv.no_filename {
-        cmd.arg("-h");
+        cmd.arg(if inv.long_flags { "--no-filename" } else { "-h" });
     }
     cmd.arg(if inv.color { "--color=always" } else { "--color=never" });
     match inv.delivery {
@@ -182,11 +185,12 @@ fn strip_sgr(raw: &[u8]) -> Result<(Vec<u8>, Vec<bool>), String> {
                 return Err("unterminated escape sequence".into());
             }
             let params = std::str::from_utf8(&raw[i + 2..j]).map_err(|_| "bad escape")?;
+            // "0" / empty resets; any other styling parameter counts as highlighting (the property
+            // does not fix the colour)
             for p in params.split(';') {
                 match p {
                     "0" | "" => on = false,
-                    "31" => on = true,
-                    other => return Err(format!("unexpected SGR parameter {other}")),
+                    _ => on = true,
                 }
             }
             i = j + 1;
@@ -489,6 +493,7 @@ pub fn c16(tier: &str, acc: &mut Acc, bounds: &mut Vec<String>) {
                             patterns: pl.clone(),
                             via_file,
                             split: pl.len() >= 2 && (li + flags as usize) % 2 == 0,
+                            long_flags: (li + 2 * flags as usize) % 5 == 0,
                             line_number: flags & 1 != 0,
                             no_filename: flags & 2 != 0,
                             color: flags & 4 != 0,
@@ -502,6 +507,7 @@ pub fn c16(tier: &str, acc: &mut Acc, bounds: &mut Vec<String>) {
                                 patterns: pl.clone(),
                                 via_file,
                                 split: false,
+                                long_flags: false,
                                 line_number: flags & 1 != 0,
                                 no_filename: flags & 2 != 0,
                                 color: flags & 4 != 0,
@@ -554,6 +560,7 @@ pub fn c16(tier: &str, acc: &mut Acc, bounds: &mut Vec<String>) {
                         patterns: pl.clone(),
                         via_file: flags == 5,
                         split: pl.len() >= 2 && flags == 1,
+                        long_flags: input.len() % 3 == 0,
                         line_number: flags & 1 != 0,
                         no_filename: flags & 2 != 0,
                         color: flags & 4 != 0,
@@ -574,6 +581,7 @@ pub fn c16(tier: &str, acc: &mut Acc, bounds: &mut Vec<String>) {
                     patterns: vec![b"ab".to_vec(), b"b".to_vec()],
                     via_file: false,
                     split: true,
+                    long_flags: color,
                     line_number: true,
                     no_filename: false,
                     color,
